@@ -181,9 +181,9 @@ place:
     p.write_text(src)
     o = d / f"c{idx}.o"
     if arch == "x86_64":
-        r = sh(["as", "--64", "-o", o, p], timeout=60)
+        r = sh(["as", "--64", "-o", o, p], timeout=300)
     else:
-        r = sh(["clang", "--target=aarch64-linux-gnu", "-c", "-o", o, p], timeout=60)
+        r = sh(["clang", "--target=aarch64-linux-gnu", "-c", "-o", o, p], timeout=300)
     if r.rc != 0 or r.timed_out:
         raise ToolError(f"assembling case {rec['name']} v={v:#x} failed: {r.err[-500:]}")
     return o, defsym
